@@ -242,6 +242,13 @@ def run(ctx):
         ctx.ob("C13.4", "socket-timeout|%s" % g.id, "no timeout is armed on a socket and none is made non-blocking", harmless, g.loc(bb), short(call_name(t)))
     ctx.ob("C13.4", "no-socket-timeouts", "the crate never arms a read/write timeout on a socket and never makes one non-blocking", not [x for x in tm if True] or all(o.ok for o in ctx.obs if o.key.startswith("C13.4|socket-timeout|")), "crate", nontrivial=True)
     ctx.counts["C13.4 call sites scanned"] = sum(1 for _ in facts.all_calls())
+    # ---- C13.6 the parse-time read of a small body is segmentation independent: it is repeated until the declared length has arrived,
+    # and nothing is read when nothing is owed (a read "to see" blocks until the client's next segment) -- the pre-read rule of C03.3, taken over
+    import rules_C03
+    try:
+        rules_C03.preread_rules(ctx, "C13.6")
+    except CheckerError as e:
+        raise CheckerError("C13.6 (the parse-time read of small bodies could not be evaluated): %s" % e)
     return {}
 
 
